@@ -76,7 +76,8 @@ class CooperativePeer(object):
     A-RELEASE-RP to an A-RELEASE-RQ)."""
 
     def __init__(self, store_statuses=None, refuse=False, silent_on_release=False, refuse_classes=(),
-                 silent_on_store=None):
+                 silent_on_store=None, release_on_store=None):
+        self.release_on_store = release_on_store      # this C-STORE-RQ is answered with A-RELEASE-RQ
         self.refuse_classes = tuple(refuse_classes)   # contexts of these classes are not accepted
         self.silent_on_store = silent_on_store        # this (0-based) C-STORE-RQ is never answered
         self.store_statuses = list(store_statuses or [])
@@ -106,6 +107,9 @@ class CooperativePeer(object):
             cmd = m['command']
             field = cmd.get(R.TAG_COMMAND_FIELD)
             if field == 0x0001:
+                if self.release_on_store is not None and len(self.stores) == self.release_on_store:
+                    self.stores.append({'ctx': m['ctx'], 'command': cmd, 'data': m['data'], 'unanswered': True})
+                    return P.AReleaseRqPDU()
                 if self.silent_on_store is not None and len(self.stores) == self.silent_on_store:
                     self.stores.append({'ctx': m['ctx'], 'command': cmd, 'data': m['data'], 'unanswered': True})
                     raise exceptions.DCMTimeoutError()
